@@ -12,6 +12,7 @@ from harness.common import z, zopt, coq_list, InfraError
 ID = 'C17'
 PROPS_FILE = 'Props/Props_C17.v'
 EXTRA_TARGETS = ['Cal/CalFloat.vo']
+CONST_PARTS = ('srccal',)     # gen/SrcCal.v: calendar.py / resource.py translated from the source text
 DAY = 86400_000_000
 BASE = 19723 * DAY          # 2024-01-01, a Monday
 
@@ -145,9 +146,54 @@ def gen_expr(rng, depth, bounds):
     return ['nary', op, [gen_expr(rng, depth - 1, bounds) for _ in range(rng.randint(0, 4))]]
 
 
+def dated_leaves(e, acc=None):
+    """The 'dated' / 'datedset' leaves of an expression in the order in which the runner builds them."""
+    acc = [] if acc is None else acc
+    k = e[0]
+    if k in ('dated', 'datedset'):
+        acc.append(e)
+    elif k == 'binc':
+        dated_leaves(e[2], acc)
+        dated_leaves(e[3], acc)
+    elif k == 'binn':
+        dated_leaves(e[2], acc)
+    elif k == 'nary':
+        for c in e[2]:
+            dated_leaves(c, acc)
+    return acc
+
+
+def apply_edit(e, edit):
+    """The expression that describes the calendar after the in-place set_units calls of `edit` (values >= 0, so every
+    call is accepted and successive calls concatenate)."""
+    import copy
+    e2 = copy.deepcopy(e)
+    leaves = dated_leaves(e2)
+    for i, more in edit:
+        leaf = leaves[i]
+        if leaf[0] == 'dated':
+            leaf[0] = 'datedset'
+            leaf.append(list(more))
+        else:
+            leaf[2] = list(leaf[2]) + list(more)
+    return e2
+
+
 def gen_case(rng):
     bounds = []
-    expr = gen_expr(rng, rng.choice([0, 1, 1, 2, 2, 3]), bounds)
+    aimed = rng.random() < 0.25
+    if aimed:
+        # aimed at objects that remember answers: an expression around a DirectCalendar that is edited in place between
+        # two rounds of the same questions to the same calendar / resource objects
+        ents = [[BASE + d * DAY, gen_num(rng, allow_neg=False)] for d in sorted(rng.sample(range(0, 8), rng.randint(0, 4)))]
+        expr = ['dated', ents]
+        r = rng.random()
+        if r < 0.3:
+            expr = ['binc', rng.choice(['or', 'add', 'sub']), expr, gen_leaf(rng, bounds)]
+        elif r < 0.5:
+            expr = ['binc', rng.choice(['or', 'add']), gen_leaf(rng, bounds), expr]
+    else:
+        expr = gen_expr(rng, rng.choice([0, 1, 1, 2, 2, 3]), bounds)
     evals = [gen_time(rng, bounds) for _ in range(rng.randint(4, 9))]
     units = [gen_time(rng, bounds) for _ in range(rng.randint(2, 4))]
     search = []
@@ -155,7 +201,28 @@ def gen_case(rng):
         d = rng.choice([1, 1, 1, -1, -1, -1, 2, -3, 0])
         n = rng.choice([0, 1, 2, 7, 30, 400, 400, 2000])
         search.append([gen_time(rng, bounds), d, n])
-    return {'expr': expr, 'evals': evals, 'units': units, 'search': search}
+    case = {'expr': expr, 'evals': evals, 'units': units, 'search': search}
+    leaves = dated_leaves(expr)
+    if leaves and (aimed or rng.random() < 0.5):
+        if aimed:
+            # whole-day dates around the entries, asked before and after the edit (same datetimes: a memo would hit)
+            tod = rng.choice([0, 0, 9 * 3600_000_000])
+            case['units'] = [BASE + d * DAY + tod for d in sorted(rng.sample(range(-1, 9), rng.randint(3, 6)))]
+            case['evals'] = list(case['units'])
+            case['search'] = [[BASE + rng.randint(-1, 3) * DAY + tod, 1, rng.choice([7, 30])],
+                              [BASE + rng.randint(5, 9) * DAY + tod, -1, rng.choice([7, 30])],
+                              [BASE + rng.randint(0, 5) * DAY + tod, rng.choice([1, -1]), rng.choice([1, 2, 3])]]
+        edit = []
+        for i in sorted(rng.sample(range(len(leaves)), rng.randint(1, min(2, len(leaves))))):
+            pool = [t for t in case['units']] + [BASE + d * DAY for d in range(-1, 9)]
+            more = []
+            for t in rng.sample(pool, rng.randint(1, min(3, len(pool)))):
+                v = ['i', 0] if rng.random() < 0.4 else gen_num(rng, allow_neg=False)
+                if not any(m[0] == t for m in more):
+                    more.append([t, v])
+            edit.append([i, more])
+        case['edit'] = edit
+    return case
 
 
 CORPUS = [
@@ -248,7 +315,11 @@ def has_structure(e):
 
 
 WHAT = {1: 'constructor outcome differs from the model (accept/reject)', 2: 'get_available_units differs from the model',
-        3: 'Resource.get_available_units differs from the model', 4: 'availability search differs from the model'}
+        3: 'Resource.get_available_units differs from the model', 4: 'availability search differs from the model',
+        5: 'after an in-place set_units: set_units outcome differs from the model',
+        6: 'after an in-place set_units: get_available_units of the same calendar object differs from the model',
+        7: 'after an in-place set_units: Resource.get_available_units of the same resource object differs from the model',
+        8: 'after an in-place set_units: availability search of the same resource object differs from the model'}
 
 
 def evaluate(ctx, cases):
@@ -256,8 +327,19 @@ def evaluate(ctx, cases):
     chunks = [cases[i:i + 150] for i in range(0, len(cases), 150)]
     obs = [o for part in ctx.impl_run_many('c17_impl', chunks) for o in part]
     terms = [emit_case(c, o) for c, o in zip(cases, obs)]
+    # second round: the same questions to the same objects after DirectCalendars were edited in place; the model
+    # answers for the expression that describes the edited calendar
+    second = [i for i, (c, o) in enumerate(zip(cases, obs)) if c.get('edit') and o['build'] == 0 and 'evals2' in o]
+    for i in second:
+        c, o = cases[i], obs[i]
+        c2 = dict(c, expr=apply_edit(c['expr'], c['edit']))
+        terms.append(emit_case(c2, {'build': 0, 'evals': o['evals2'], 'units': o['units2'], 'search': o['search2']}))
     codes = ctx.coq_codes('cases', HEADER, 'case', terms, 'check_case')
-    return obs, codes
+    first, extra = codes[:len(cases)], codes[len(cases):]
+    for i, code in zip(second, extra):
+        if first[i] == 0 and code != 0:
+            first[i] = code + 4
+    return obs, first
 
 
 def run(ctx):
@@ -265,7 +347,7 @@ def run(ctx):
     cases = list(CORPUS) + [gen_case(ctx.rng) for _ in range(n)]
     obs, codes = evaluate(ctx, cases)
     distinct = set()
-    dist = {'rejected': 0, 'built': 0, 'zero_division': 0, 'search_found': 0, 'search_failed': 0}
+    dist = {'rejected': 0, 'built': 0, 'zero_division': 0, 'search_found': 0, 'search_failed': 0, 'edited_in_place_and_asked_again': 0}
     for c, o in zip(cases, obs):
         key = json.dumps(c['expr'])
         if o['build'] != 0:
@@ -273,6 +355,9 @@ def run(ctx):
             distinct.add(('rej', key))
             continue
         dist['built'] += 1
+        if 'evals2' in o:
+            dist['edited_in_place_and_asked_again'] += 1
+            distinct.add((key, 'edit', json.dumps(c['edit'])))
         if has_structure(c['expr']):
             for t in c['evals']:
                 distinct.add((key, t))
